@@ -186,9 +186,9 @@ def check(ctx):
     scores = s.env.get("scores")
     sc = None
     for t in ir.walk(ret):
-        if t[0] == "call" and ir.show(t[1]).endswith("maximum") and len(t[2]) == 2 and all(x[0] == "attr" and x[2] in ("lower_bounds", "upper_bounds") for x in t[2]):
+        if t[0] == "call" and ir.show(t[1]).endswith("maximum") and len(t[2]) == 2 and all(ir.column_ref(x) is not None and ir.column_ref(x)[1] in ("lower_bounds", "upper_bounds") for x in t[2]):
             sc = t
-    oks = sc is not None and {sc[2][0][2], sc[2][1][2]} == {"lower_bounds", "upper_bounds"} and sc[2][0][1] == CONF and sc[2][1][1] == CONF
+    oks = sc is not None and {ir.column_ref(sc[2][0])[1], ir.column_ref(sc[2][1])[1]} == {"lower_bounds", "upper_bounds"} and ir.column_ref(sc[2][0])[0] == CONF and ir.column_ref(sc[2][1])[0] == CONF
     ctx.ob("C04.R1.score", f"{f.qualname}|score = maximum(lower_bounds, upper_bounds)", oks, f.where(),
            "conformity score = max(L(x) - r, r - U(x)) per calibration unit" if oks else "score is not the element-wise maximum of the two bound columns")
     if not oks:
@@ -250,7 +250,7 @@ def check(ctx):
     if POP is None:
         return
     # ---- R3 population correction ------------------------------------------------------------------------------
-    ok_min = POP[0] == "call" and ir.show(POP[1]).endswith("min") and POP[2] and POP[2][0][0] == "attr" and POP[2][0][2] == "scores"
+    ok_min = POP[0] == "call" and ir.show(POP[1]).endswith("min") and POP[2] and ir.column_ref(POP[2][0]) is not None and ir.column_ref(POP[2][0])[1] == "scores"
     ctx.ob("C04.R3.min", f"{f.qualname}|correction = minimum remaining score", ok_min, f.where(),
            "population correction = min of the scores that pass the filter" if ok_min else f"population correction is {ir.show(POP, maxdepth=3)}")
     if not ok_min:
